@@ -86,7 +86,8 @@ class HSFZConnection:
         self.src_addr = src_addr
         self.dst_addr = dst_addr
         self.ack_timeout = ack_timeout
-        self._read_queue: asyncio.Queue[HSFZDiagFrame | int] = asyncio.Queue()
+        # A queued None marks the end of the stream (reader task has ended).
+        self._read_queue: asyncio.Queue[HSFZDiagFrame | int | None] = asyncio.Queue()
         self._read_task = asyncio.create_task(self._read_worker())
         self._read_task.add_done_callback(
             handle_task_error,
@@ -185,6 +186,10 @@ class HSFZConnection:
             logger.debug(f"read worker received EOF: {e}")
         except Exception as e:
             logger.critical(f"read worker died: {e}")
+        finally:
+            # No more frames will arrive: wake up a consumer which is blocked on the queue.
+            # Frames which are already queued are still handed out before the marker.
+            self._read_queue.put_nowait(None)
 
     async def _unpack_frame(self, frame: HSFZDiagFrame | int) -> HSFZDiagFrame:
         # I little hack, but it is either a tuple or an int….
@@ -204,7 +209,12 @@ class HSFZConnection:
             else:
                 raise RuntimeError("connection already closed")
 
-        return await self._read_queue.get()
+        frame = await self._read_queue.get()
+        if frame is None:
+            # Keep the marker in the queue, the stream stays ended.
+            self._read_queue.put_nowait(None)
+            raise BrokenPipeError("connection closed by gateway")
+        return frame
 
     async def read_diag_request(self) -> bytes:
         unexpected_packets = []
